@@ -182,6 +182,7 @@ pub fn run_sim_warm<R: Send>(env: &Env, warm: impl Fn() + Sync + Send, f: impl F
     // threads created from here on inherit this affinity mask
     crate::driver::set_cpus(env.cpus.max(1));
     let saved_vars = set_env_vars(env.envvars_seed);
+    seams::set_envvars_seed(env.envvars_seed);
     sim::reset_pool_ids(0);
     sim::set_default_config(cfg.clone());
     sim::install_global(cfg);
@@ -222,6 +223,7 @@ pub fn run_sim_warm<R: Send>(env: &Env, warm: impl Fn() + Sync + Send, f: impl F
     let counters = seams::counters();
     let trace = sim::shutdown_global().expect("global pool");
     crate::driver::set_cpus(1);
+    seams::set_envvars_seed(0);
     restore_env_vars(saved_vars);
     let results = results.map_err(|_| LAST_PANIC.lock().map(|g| g.clone()).unwrap_or_default());
     SimOutcome { results, stats: RunStats::from(&trace, counters), choices: trace.nonzero }
